@@ -11,6 +11,8 @@ WT=/tmp/seedeval-wt-$$
 OUT="$D/eval.txt"; : > "$OUT"
 DEMODIR=$(python3 -c "import json;print(json.load(open('$D/meta.json')).get('demo_dir','.'))")
 DEMORUN=$(python3 -c "import json;print(json.load(open('$D/meta.json')).get('demo_run',''))")
+if [ -z "${CHECKS_ONLY:-}" ]; then
+# (CHECKS_ONLY=1: the seed was confirmed in an earlier evaluation; only re-run the checks)
 git -C /repo worktree add -q --detach "$WT" HEAD || exit 2
 cleanup() { git -C /repo worktree remove --force "$WT" >/dev/null 2>&1; rm -rf "$WT"; }
 trap cleanup EXIT
@@ -28,16 +30,19 @@ echo "demo_with_patch_exit=$P" >> "$OUT"
 rm -f "$WT/$DEMODIR/zz_seed_demo_test.go"
 ( go build ./... && timeout 900 go test -vet=off -count=1 ./... ) > "$D/suite_with.log" 2>&1; S=$?
 echo "suite_with_patch_exit=$S" >> "$OUT"
+fi
 cd /verif
 # now the checks against /repo with the patch
 if ! git -C /repo apply "$D/patch.diff"; then echo "repo_apply=failed" >> "$OUT"; cat "$OUT"; exit 1; fi
 CAUGHT=""
-VERIF_NO_EVIDENCE=1 ./run.sh check C03 quick >/dev/null 2>&1 </dev/null # make sure the checker binary is current before going parallel (result ignored)
-echo $PROPS | tr ' ' '\n' | VERIF_NO_EVIDENCE=1 xargs -P 7 -I{} sh -c './run.sh check {} quick > "'"$D"'/check_{}.log" 2>&1; echo $? > "'"$D"'/exit_{}.log"'
+./run.sh setup >/dev/null 2>&1
+# one load of the patched tree, the quick rules of every property (same rules as ./run.sh check <p> quick)
+VERIF_NO_EVIDENCE=1 ./bin/verifcheck check-all > "$D/check_all.log" 2>&1
+ALL=$(grep '^ALARMS:' "$D/check_all.log" | sed 's/^ALARMS://')
 for p in $PROPS; do
-	E=$(cat "$D/exit_$p.log")
-	if [ "$E" != "0" ]; then CAUGHT="$CAUGHT $p"; fi
+	case " $ALL " in *" $p "*) CAUGHT="$CAUGHT $p";; esac
 done
+grep -q '^ALARMS:' "$D/check_all.log" || CAUGHT="CHECKER-FAILED"
 git -C /repo checkout -- .
 echo "caught_by=$CAUGHT" >> "$OUT"
 cat "$OUT"
